@@ -203,6 +203,7 @@ func C01(p *an.Prog, r *an.Report) {
 	c01NoTruncatingCopy(p, r)
 	c01NoUnreadSkip(p, r, "C01.R11")
 	c11OneStringReader(p, r, "C01.R12") // mapping strings come from the one string reader (same rule as C11.M7)
+	narrowArith(p, r, "C01.R13", nil)   // lengths and counts computed in narrow integer types cannot wrap (same rule as C03.S4)
 	c01Block(p, r, "C01.R5")
 	c11Threshold(p, r) // R6 (same rule as C11.M5)
 }
